@@ -7,21 +7,30 @@ import vlib
 PID = "C09"
 
 CLAIM = dict(
-    text="Machine-checked Coq theorems over an executable model of TypeAggregator (aggregator.rs: aggregate, merge_*, "
-         "remap_* with the remap table and the interface-id table, used types, canonical-name bookkeeping) on top of the "
-         "C07 checker model, plus an executable specification (highest-on-track canonical names; union merge of instance "
-         "requirements; conflict predicate) evaluated on the implementation's own observations. The model is tied to the "
-         "code on every run by a correspondence over multisets of 2-5 contributors, each built in its own Types collection, "
-         "under ALL permutations of contributor order (success / error class / position, imports() names in order with "
-         "unfolded merged trees, canonical names, interface ids and uses, real SubtypeChecker verdicts merged <: required).",
+    text="Machine-checked Coq theorems (18, no axioms) over an executable model of TypeAggregator (aggregator.rs: aggregate, "
+         "merge_*, remap_* with the remap table and the interface table, used types, owner imports, canonical-name "
+         "bookkeeping) on top of the C07 checker model: for histories without owned resources every contributed name has "
+         "ONE canonical name per semver track - the highest contributed version, equal to the executable specification "
+         "spec_canonical - canonical is idempotent, redirects are total, other tracks are untouched, and two successful "
+         "orders agree on it; for flat instance requirements (function / value / value-type exports, interfaces named by "
+         "their import name) the merged import offers every export of every contributor with the contributor's tree "
+         "(merged <: required in the declarative relation), a merge step yields the first-seen union of the export names, "
+         "re-aggregation changes nothing observable, a conflict makes the history fail, and two successful orders give the "
+         "same trees up to export order. The general statements are refuted by vm_compute witnesses that are replayed on "
+         "the real aggregator and SubtypeChecker on every run (nested instances, component imports, owned resources, one "
+         "interface under two import names, alias-vs-primitive panic). The model is tied to the code by a correspondence "
+         "over multisets of 2-5 contributors, each built in its own Types collection, under ALL permutations of the "
+         "contributor order; the specification predicates are evaluated on the implementation's own observations.",
     design_ref="DESIGN.md §5 C09, Appendix A.5, Appendix B",
-    note="Scope of the proofs is stated per theorem in coq/theories/props/C09.v (partial results carry `_partial`, refuted "
-         "general statements carry `_refuted` with a replayed witness). Trusted: Coq kernel; extraction; OCaml driver; Rust "
-         "harness; the hand-written models Types.v/Checker.v/Aggregator.v (validated by correspondence, not derived from "
-         "the Rust source).",
-    technique="Coq proof (invariants over aggregation histories; induction on fuel for the remap/merge recursion) + "
-              "extracted-model correspondence under all permutations + executable specification evaluated on "
-              "implementation observations")
+    note="Five confirmed defects of the real aggregator are reported as known findings (see PROPOSED_KNOWN; repairs for two "
+         "of them in hooks/fix-c09-*.patch). Not proved: 'failure only on conflict' and order independence of SUCCESS even "
+         "for flat requirements (needs completeness of the checker at the given fuel and panic-freedom of the copy); `use`d "
+         "types and resources are covered by the model, the correspondence and the executable specification only. "
+         "Trusted: Coq kernel; extraction; OCaml driver; Rust harness; the hand-written models Types.v/Checker.v/"
+         "Aggregator.v (validated by correspondence, not derived from the Rust source).",
+    technique="Coq proof (invariants over aggregation histories; induction on fuel for the remap/merge recursion; fuel "
+              "monotonicity of accepting checker verdicts) + extracted-model correspondence under all permutations + "
+              "executable specification evaluated on implementation observations")
 
 # Entries proposed to the main session for /verif/known-findings.json; consulted locally so that the check exits 0
 # on the unchanged tree while still printing the KNOWN-FINDING lines.  Signatures are computed by `signatures()`.
